@@ -136,6 +136,7 @@ class CtlWorld:
         self.sent = {}
         self.twin_tasks = []
         self.await_pairs = []
+        self.shutting = False
         self.out, self.err = io.StringIO(), io.StringIO()
         self.ev("init", cls=cls_name, ps=str(self.pool), public=self.public_members())
 
@@ -228,7 +229,12 @@ class CtlWorld:
             await self.server._client_connected_cb(reader, writer)
             self.ev("sdone", s=s, how="ok", exc="")
         except asyncio.CancelledError:
-            self.ev("sdone", s=s, how="cancelled", exc="")
+            # the harness cancels sessions only when it shuts the loop down; before that a CancelledError leaving the
+            # session is an exception that escaped like any other
+            if self.shutting:
+                self.ev("sdone", s=s, how="cancelled", exc="")
+            else:
+                self.ev("sdone", s=s, how="exc", exc="CancelledError")
         except BaseException as e:
             self.ev("sdone", s=s, how="exc", exc=type(e).__name__)
 
@@ -365,6 +371,7 @@ class CtlWorld:
                 loop_errors=len(self.loop_errors))
 
     def close(self):
+        self.shutting = True
         self.loop.shutdown()
 
 
